@@ -782,6 +782,16 @@ def check(run, project):
                                          "tpmstream.spec.commands.params_common", "tpmstream.spec.common.values",
                                          "tpmstream.spec.common.base_type", "tpmstream.spec.common.tpm_rc"),
                     what="an internal error instead of a documented outcome", dead_in=dead_in)
+    # X6 (= C19-L4): the exemption above rests on "a Response is only ever decoded with a member of TPM_CC (or None)": the one
+    # caller in the package that supplies command codes in bulk, the type search of the command line, must iterate TPM_CC
+    # itself - a code of another kind (a name string, a number outside the enumeration) reaches that handler and dies with
+    # NameError, which is no documented outcome
+    from ..report import RuleView
+    from . import c19
+    try:
+        c19.check(RuleView(run, "L4", "X6"), project)
+    except AnalysisError as ex:
+        run.info(f"X6: the type search of the command line could not be followed ({ex}); not judged here (C19 reports it)")
     run.require(n_calls >= 40, f"X3: only {n_calls} resolvable calls in the decode core")
     x2(run, lg)
     run.floor("X1", 70, "failure sites")
